@@ -159,9 +159,11 @@ def catalogue(rng, tier, dims=("homogeneous", "spatial_1D", "spatial_2D"), confs
     if "homogeneous" in dims:
         plan += [("homogeneous", "shelf")] * n0
     if "spatial_1D" in dims:
-        plan += [("spatial_1D", c) for c in (confs or ["shelf", "VISF", "shelf"])[:n1]]
+        cs = confs or ["shelf", "VISF", "shelf"]
+        plan += [("spatial_1D", cs[i % len(cs)]) for i in range(n1)]
     if "spatial_2D" in dims:
-        plan += [("spatial_2D", c) for c in (confs or ["shelf", "jacket", "VISF"])[:n2]]
+        cs = confs or ["shelf", "jacket", "VISF"]
+        plan += [("spatial_2D", cs[i % len(cs)]) for i in range(n2)]
     for dim, conf in plan:
         if dim == "homogeneous":
             h, d, K = rng.choice([0.01, 0.02]), 0.01, rng.choice([20, 50, 100])
